@@ -38,6 +38,15 @@ pub struct Params {
     pub denom: String,
 }
 
+/// The same denomination spelled in the other letter case: another denomination altogether.
+pub fn other_case(denom: &str) -> String {
+    if denom.chars().any(|c| c.is_uppercase()) {
+        denom.to_lowercase()
+    } else {
+        denom.to_uppercase()
+    }
+}
+
 fn default_denom() -> String {
     DENOM.to_string()
 }
@@ -133,7 +142,7 @@ impl Inst {
         let relay = app.instantiate_contract(code, Addr::unchecked(operator.clone()), &Empty {}, &[], "relay", None).unwrap().to_string();
         let delegators = vec![u0, u1, relay];
         for d in &delegators {
-            app.sudo(SudoMsg::Bank(BankSudo::Mint { to_address: d.clone(), amount: vec![coin(START_BALANCE, p.denom.clone()), coin(1000, "ux")] })).unwrap();
+            app.sudo(SudoMsg::Bank(BankSudo::Mint { to_address: d.clone(), amount: vec![coin(START_BALANCE, p.denom.clone()), coin(1000, "ux"), coin(1000, other_case(&p.denom))] })).unwrap();
         }
         let noise = "noise-delegator".into_addr().to_string();
         app.sudo(SudoMsg::Bank(BankSudo::Mint { to_address: noise.clone(), amount: vec![coin(START_BALANCE, p.denom.clone())] })).unwrap();
@@ -362,7 +371,7 @@ impl Model {
     pub fn new(p: &Params, inst: &Inst) -> Model {
         let mut ledger = Ledger::default();
         for d in &inst.delegators {
-            ledger.mint(d, &vec![(p.denom.clone(), START_BALANCE), ("ux".to_string(), 1000)]);
+            ledger.mint(d, &vec![(p.denom.clone(), START_BALANCE), ("ux".to_string(), 1000), (other_case(&p.denom), 1000)]);
         }
         ledger.mint(&inst.noise, &vec![(p.denom.clone(), START_BALANCE)]);
         let vals = validators(p);
@@ -1051,7 +1060,19 @@ pub fn gen_op(rng: &mut Rng, m: &Model, mix: Mix) -> SOp {
         }
         r -= w;
     }
-    let denom = if rng.chance(1, 25) { "ux".to_string() } else { m.denom.clone() };
+    // now and then another denomination than the bonded one: an unrelated one, or a near miss of the bonded one
+    // (the same letters in the other case — the delegators hold such coins too —, a prefix, a suffix, padding)
+    let denom = if rng.chance(1, 25) {
+        match rng.below(6) {
+            0 | 1 => other_case(&m.denom),
+            2 => format!("{} ", m.denom),
+            3 => m.denom[..m.denom.len() - 1].to_string(),
+            4 => format!("{}2", m.denom),
+            _ => "ux".to_string(),
+        }
+    } else {
+        m.denom.clone()
+    };
     let maybe_unknown = |rng: &mut Rng, v: String| if rng.chance(1, 30) { "nobody".to_string() } else { v };
     // prefer pairs that already have a delegation for undelegate / redelegate / withdraw
     let existing: Vec<(usize, String)> = m.pairs.iter().filter(|(_, p)| p.lo > 0).map(|(k, _)| k.clone()).collect();
@@ -1333,6 +1354,9 @@ pub fn templates() -> Vec<(String, Case)> {
                     SOp::Undelegate { d: 1, v: v0.clone(), amount: 334, denom: t.clone() },
                     SOp::Delegate { d: 1, v: v0.clone(), amount: 0, denom: t.clone() },
                     SOp::Delegate { d: 1, v: v0.clone(), amount: 5, denom: "ux".into() },
+                    SOp::Delegate { d: 1, v: v0.clone(), amount: 5, denom: other_case(&t) },
+                    SOp::Undelegate { d: 0, v: v0.clone(), amount: 5, denom: other_case(&t) },
+                    SOp::Redelegate { d: 0, src: v0.clone(), dst: v1.clone(), amount: 5, denom: other_case(&t) },
                     SOp::Delegate { d: 1, v: "nobody".into(), amount: 5, denom: t.clone() },
                     adv(59),
                     adv(1),
